@@ -99,6 +99,9 @@ def _match_display_names_exact(
     for prop in importable_props:
         if prop in display_name_to_key:
             feature_key, idx = display_name_to_key[prop]
+            if feature_key in mapping:
+                # Key was already matched: never overwrite, keep prop for later steps
+                continue
             # Check if this is a multi-value feature (has other indices)
             is_multi_value = any(
                 k == feature_key and i != idx for _, (k, i) in display_name_to_key.items()
@@ -106,6 +109,9 @@ def _match_display_names_exact(
             if is_multi_value:
                 if feature_key not in multi_value_matches:
                     multi_value_matches[feature_key] = {}
+                if idx in multi_value_matches[feature_key]:
+                    # Slot was already filled: never overwrite
+                    continue
                 multi_value_matches[feature_key][idx] = prop
             else:
                 # Single-value feature
@@ -168,6 +174,9 @@ def _match_display_names_fuzzy(
 
         if closest:
             _, feature_key, idx = lower_display_map[closest[0]]
+            if feature_key in mapping:
+                # Key was already matched: never overwrite, keep prop as custom
+                continue
             # Check if this is a multi-value feature
             is_multi_value = any(
                 k == feature_key and i != idx for _, (k, i) in display_name_to_key.items()
@@ -175,6 +184,9 @@ def _match_display_names_fuzzy(
             if is_multi_value:
                 if feature_key not in multi_value_matches:
                     multi_value_matches[feature_key] = {}
+                if idx in multi_value_matches[feature_key]:
+                    # Slot was already filled: never overwrite
+                    continue
                 multi_value_matches[feature_key][idx] = prop
             else:
                 mapping[feature_key] = prop
@@ -262,7 +274,8 @@ def infer_node_name_map(
     """Infer node_name_map by matching importable node properties to standard keys.
 
     Uses difflib fuzzy matching with the following priority:
-    1. Exact matches to standard keys (time, seg_id, etc.)
+    1. Exact matches to standard keys (time, seg_id, etc.), then to
+       node feature keys (area, pos, etc.)
     2. Fuzzy matches to standard keys (case-insensitive, 40% similarity cutoff)
     3. Exact matches to feature display names/value_names (including position z/y/x)
     4. Fuzzy matches to feature display names (case-insensitive, 40% cutoff)
@@ -299,8 +312,11 @@ def infer_node_name_map(
     props_left = importable_node_properties.copy()
 
     # Pipeline of matching steps
-    # Step 1: Exact matches for standard fields
+    # Step 1: Exact matches for standard fields, then for node feature keys
+    # (a column spelled exactly like a key always maps to that key, so a column
+    # left over for step 5 can never collide with a key that is already mapped)
     props_left = _match_exact(standard_fields, props_left, mapping)
+    props_left = _match_exact(list(node_features), props_left, mapping)
 
     # Step 2: Fuzzy matches for remaining standard fields
     props_left = _match_fuzzy(standard_fields, props_left, mapping)
